@@ -472,7 +472,7 @@ struct C05Obs<'a> {
     evals: u64,
 }
 
-fn c05_compare(buf: &[u8], base: usize, consumed: usize, frame: Option<(usize, usize)>, frame_bytes_ok: bool) -> Result<(), Violation> {
+pub fn c05_compare(buf: &[u8], base: usize, consumed: usize, frame: Option<(usize, usize)>, frame_bytes_ok: bool) -> Result<(), Violation> {
     let n = buf.len();
     if consumed > n {
         return Err(Violation::new("C05", "C05.b", format!("consumed {} > buffer length {} (buffer at abs {})", consumed, n, base)));
@@ -531,6 +531,26 @@ fn c05_compare(buf: &[u8], base: usize, consumed: usize, frame: Option<(usize, u
         }
     }
     Ok(())
+}
+
+/// one real scanner call on `buf`, judged by the C05 clauses a-d (used by the enumerated sweeps)
+pub fn check_c05_buffer(buf: &[u8], what: &str) -> Result<(), Violation> {
+    let r = catch_unwind(AssertUnwindSafe(|| {
+        let (c, f) = next_msg_frame(buf);
+        let fr = f.as_ref().map(|f| ((f.frame_data().as_ptr() as usize).wrapping_sub(buf.as_ptr() as usize), f.frame_len()));
+        let ok = match (&f, fr) {
+            (Some(f), Some((rs, l))) => rs <= buf.len() && rs + l <= buf.len() && f.frame_data() == &buf[rs..rs + l],
+            _ => true,
+        };
+        (c, fr, ok)
+    }));
+    match r {
+        Ok((c, fr, ok)) => c05_compare(buf, 0, c, fr, ok).map_err(|mut v| {
+            v.detail = format!("{}: {}", what, v.detail);
+            v
+        }),
+        Err(e) => Err(Violation::new("C05", "C05.f", format!("{}: scanner panicked: {}", what, panic_text(&e)))),
+    }
 }
 
 impl<'a> C05Obs<'a> {
@@ -1040,7 +1060,7 @@ impl<'a> Observer for C13Obs<'a> {
 /// C13.d: a buffer that begins with a valid frame yields that frame (same
 /// attributes, consumed = its own length) from the scanner and from the
 /// iterator whatever follows it
-fn check_c13_scanner(with: &[u8], flen: usize, what: &str) -> Result<(), Violation> {
+pub fn check_c13_scanner(with: &[u8], flen: usize, what: &str) -> Result<(), Violation> {
     let r = catch_unwind(AssertUnwindSafe(|| {
         let (c, f) = next_msg_frame(with);
         let a = f.map(|f| ((f.frame_data().as_ptr() as usize).wrapping_sub(with.as_ptr() as usize), f.frame_len(), f.message_number(), f.crc(), f.data_len()));
